@@ -35,7 +35,7 @@ theorem exPr_norm_sub : normalizeExp (.bin .sub (.var "y") exPrMax : Exp (Ext K)
   simp [exPrMax, exPrBad, normalizeExp, flattenFuel, flattenF, simplify, mulCore, divCore, subCore, isNumEq,
     mayBeUndefined, allNums, Arith.eq, Ext.eq, isNonzeroLit, Arith.zero, Arith.ne]
 
-theorem exPr_flags (bm : BoundsMap (Ext K)) :
+theorem exPr_flags0 (bm : BoundsMap (Ext K)) :
     retainedFlags .max (boundsOfList bm [.num (.fin 10), (exPrBad : Exp (Ext K))]) = [true, false] := by
   have h10 : ¬ ((10:K) ≤ 0) := by norm_num
   have h0 : (0:K) ≤ 10 := by norm_num
@@ -43,91 +43,103 @@ theorem exPr_flags (bm : BoundsMap (Ext K)) :
   simp [exPrBad, boundsOfList, boundsOf, Lin.Bounds.scale, Lin.Bounds.singleton, retainedFlags, List.range,
     List.range.loop, Arith.eq, Ext.eq, Arith.zero, Arith.ge, Arith.le, Ext.le, h10, h0, h10']
 
-/-- the undefined operand is pruned: `max{10, 0 * (x / 0)}` is lowered to the constant `10`. -/
-theorem exPr_lin_max (req : Req) (s : St (Ext K)) :
-    linExp (exPrMax : Exp (Ext K)) req s = .ok (Ctx.fromRhs (Ext.fin 10), s) := by
+/-- dominated, but possibly undefined: retained (fix 46b0121). -/
+theorem exPr_flags (bm : BoundsMap (Ext K)) :
+    retainedFlagsE .max [.num (.fin 10), (exPrBad : Exp (Ext K))]
+      (boundsOfList bm [.num (.fin 10), (exPrBad : Exp (Ext K))]) = [true, true] := by
+  rw [retainedFlagsE, exPr_flags0]
+  simp [exPrBad, mayBeUndefined, isNonzeroLit, Arith.ne, Arith.eq, Ext.eq, Arith.zero]
+
+theorem exPrBad_linExp (req : Req) (s : St (Ext K)) :
+    linExp (exPrBad : Exp (Ext K)) req s = .error .divisionByZero := exUndefDivL_linExp req s
+
+/-- since fix 46b0121 the possibly undefined operand is retained, lowered, and its division by zero reported. -/
+theorem exPr_lin_max (s : St (Ext K))
+    (hfresh : (toString "$" ++ toString ExtKind.max.name ++ toString "_" ++ toString s.maxCount) ∉ s.domain.map (·.name)) :
+    linExp (exPrMax : Exp (Ext K)) .lower s = .error .divisionByZero := by
   rw [exPrMax, linExp]
   unfold linExtreme
-  simp only [List.isEmpty_cons, Bool.false_eq_true, if_false, bind_ok, get_ok]
+  simp only [List.isEmpty_cons, Bool.false_eq_true, if_false]
+  rw [bind_err]
+  right
   refine ⟨s, s, rfl, ?_⟩
   simp only [exPr_flags]
-  simp [linFirstFlagged, linExp, pure_ok]
+  simp only [List.filter_cons, id_eq, if_true, List.filter_nil, List.length_cons, List.length_nil]
+  norm_num
+  rw [bind_err]
+  right
+  refine ⟨⟨⟩, _, rfl, ?_⟩
+  rw [bind_err]
+  right
+  refine ⟨⟨⟩, _, (declareVariable_ok _ _ _ _).mpr ⟨hfresh, rfl⟩, ?_⟩
+  rw [bind_err]
+  left
+  rw [linFlagged]
+  simp only [if_true]
+  rw [bind_err]
+  right
+  refine ⟨Ctx.fromRhs (Ext.fin 10), _, by rw [linExp]; rfl, ?_⟩
+  rw [bind_err]
+  left
+  rw [linFlagged]
+  simp only [if_true]
+  rw [bind_err]
+  left
+  exact exPrBad_linExp _ _
 
-def exPrRow : MidRow (Ext K) := { name := "c", lhs := [("y", Ext.fin 1)], rhs := Ext.fin 10, cmp := .ge }
-
-theorem exPr_proc (s : St (Ext K)) (hy : isBoolVar s.domain "y" = false) :
-    processConstraint (exPrC : Constraint (Ext K)) s = .ok ((), addRow s exPrRow) := by
-  unfold processConstraint exPrC
-  simp only [bind_ok, simplifyFlat_ok]
-  refine ⟨_, _, ⟨_, exAbs_norm_var "y", rfl⟩, _, _, ⟨_, exPr_norm_max, rfl⟩, ?_⟩
-  simp only [Bool.false_eq_true, if_false]
+theorem exPr_proc (s : St (Ext K)) (hy : isBoolVar s.domain "y" = false)
+    (hfresh : (toString "$" ++ toString ExtKind.max.name ++ toString "_" ++ toString s.maxCount) ∉ s.domain.map (·.name)) :
+    processConstraint (exPrC : Constraint (Ext K)) s = .error .divisionByZero := by
+  unfold processConstraint
+  rw [bind_err]
+  right
+  refine ⟨.var "y", s, (simplifyFlat_ok _ _ _).mpr ⟨_, exAbs_norm_var "y", rfl⟩, ?_⟩
+  rw [bind_err]
+  right
+  refine ⟨exPrMax, s, (simplifyFlat_ok _ _ _).mpr ⟨_, exPr_norm_max, rfl⟩, ?_⟩
+  show dispatch "c" (.var "y") .ge exPrMax s = _
   unfold dispatch
-  simp only [bind_ok, get_ok]
+  rw [bind_err]
+  right
   refine ⟨s, s, rfl, ?_⟩
   have : tryNormalize s.domain (.var "y" : Exp (Ext K)) .ge exPrMax = none := by
     simp [tryNormalize, isLogicValue, exPrMax, hy]
   simp only [this]
-  rw [emitConstraint_ok]
-  refine ⟨_, (Ctx.fromVar "y" Arith.one).mergeSub (Ctx.fromRhs (Ext.fin 10)), s, exPr_norm_sub, ?_, ?_⟩
-  · rw [linExp]
-    simp only [bind_ok, pure_ok]
-    exact ⟨_, s, by simp [linExp, pure_ok], _, s, exPr_lin_max _ s, rfl⟩
-  · simp [addRow, exPrRow, Ctx.mergeSub, fromVar_eq, Ctx.fromRhs, Ctx.addRhs, Ctx.new, Ctx.addVar, Ext.neg,
-      Ext.add, Arith.neg, Arith.add, Arith.zero]
+  unfold emitConstraint
+  simp only [exPr_norm_sub]
+  rw [bind_err]
+  left
+  rw [linExp, bind_err]
+  right
+  refine ⟨Ctx.fromVar "y" Arith.one, s, by rw [linExp]; rfl, ?_⟩
+  rw [bind_err]
+  left
+  exact exPr_lin_max s hfresh
 
-noncomputable def exPrLM : LinModel (Ext K) :=
-  assemble exPr (Ctx.fromVar "y" Arith.one)
-    { queue := [], rows := [exPrRow], domain := (exPr : Model (Ext K)).domain, bounds := [] }
-
-theorem exPr_ok : linearizeWith (exPr : Model (Ext K)) [] (exPr : Model (Ext K)).domain = .ok exPrLM := by
+/-- **regression for the repaired finding** (rooc 46b0121): `min y s.t. y ≥ max{10, 0 * (x / 0)}` — every literal
+finite, the operand `0 * (x / 0)` dominated by `10` — used to compile to `y ≥ 10`; the operand is now retained
+and the compilation is rejected with `divisionByZero`. -/
+theorem exPr_error :
+    linearizeWith (exPr : Model (Ext K)) [] (exPr : Model (Ext K)).domain = .error .divisionByZero := by
   let s0 : St (Ext K) := { queue := (exPr : Model (Ext K)).constraints, domain := (exPr : Model (Ext K)).domain, bounds := [] }
   have hy : isBoolVar s0.domain "y" = false := by simp [s0, exPr, isBoolVar, domainType]
-  have hproc := exPr_proc { s0 with queue := [] } hy
-  have hdrain : drain drainFuel s0 = .ok ((), addRow { s0 with queue := [] } exPrRow) := by
-    have h1 : drainFuel = 999998 + 1 + 1 := rfl
-    rw [h1]
-    apply drain_cons _ s0 _ _ [] rfl hproc
-    exact drain_nil _ _ rfl
-  exact (linearizeWith_ok_iff _ _ _ _).mpr ⟨.var "y", s0, Ctx.fromVar "y" Arith.one, s0, _,
-    by simp [simplifyFlat_ok, exAbs_norm_var, exPr, s0], by simp [linExp, pure_ok], hdrain, rfl⟩
-
-theorem exPr_linFeasible : linFeasible (exPrLM : LinModel (Ext K)) (fun _ => 10) = true := by
-  simp [exPrLM, assemble, linFeasible, exPrRow, exPr, dedupNames, sortStr, insertSortedDup,
-    extractCoeffs, rowHolds, dotK, cmpK, inDomain, geExt, leExt, indexOf, indexOf.go]
-
-theorem exPr_not_srcFeasible (ρ : String → K) : ¬ srcFeasible (exPr : Model (Ext K)) ρ = true := by
-  intro h
-  have := ((srcFeasible_iff _ _).mp h).1 exPrC (by simp [exPr])
-  simp [constraintHolds, exPrC, exPrMax, exPrBad, eval, evalList, binVal] at this
-
-/-- **the definedness clause cannot be dropped, even with finite literals**: every clause of the contract but
-`DefOn` holds, `DomRel` and `BoxEnforced` hold, the model compiles, the linear model is feasible (`y = 10`) and
-the source model is not (its constraint has no value at any assignment). -/
-theorem defined_needed_pruned :
-    ∃ (m : Model (Ext K)) (b : BoundsMap (Ext K)) (d : List (DomVar (Ext K))) (lm : LinModel (Ext K))
-      (ρ : String → K),
-      linearizeWith m b d = .ok lm ∧ DomRel m d ∧ BoxEnforced b d ∧
-      (∀ c ∈ m.constraints, (∀ y, (y ∈ varsOf c.lhs ∨ y ∈ varsOf c.rhs) → inScope d y) ∧ FinE c.lhs ∧ FinE c.rhs ∧
-        NCon d c.lhs ∧ NCon d c.rhs ∧ DefOn d c.lhs) ∧
-      GoodE d m.objective ∧
-      linFeasible lm ρ = true ∧ ∀ ρ' : String → K, ¬ srcFeasible m ρ' = true := by
-  have sx : inScope (exPr : Model (Ext K)).domain "x" :=
-    ⟨{ name := "x", ty := .real .ninf .pinf, usage := 1 }, by simp [exPr], rfl, by simp⟩
-  have sy : inScope (exPr : Model (Ext K)).domain "y" :=
-    ⟨{ name := "y", ty := .real .ninf .pinf, usage := 1 }, by simp [exPr], rfl, by simp⟩
-  refine ⟨exPr, [], exPr.domain, exPrLM, fun _ => 10, exPr_ok,
-    ⟨by simp [exPr], fun _ h => h, fun ρ h => ((srcFeasible_iff _ ρ).mp h).2, fun dv hdv hu => ⟨dv, hdv, rfl, hu⟩⟩,
-    by intro ρ _ n bd _ hl; simp [lookupB] at hl, ?_, ?_, exPr_linFeasible, exPr_not_srcFeasible⟩
-  · intro c hc
-    simp only [exPr, List.mem_singleton] at hc
-    subst hc
-    refine ⟨?_, by simp [FinE, exPrC, finiteLits], by simp [FinE, exPrC, exPrMax, exPrBad, finiteLits, finiteLitsL, isFin],
-      fun ρ _ => by simp [exPrC, NC], fun ρ _ => by simp [exPrC, exPrMax, exPrBad, NC, NCList],
-      fun ρ _ => ⟨ρ "y", by simp [exPrC, eval]⟩⟩
-    intro y hy
-    simp [exPrC, exPrMax, exPrBad, varsOf, varsOfList] at hy
-    rcases hy with rfl | rfl; exacts [sy, sx]
-  · exact ⟨by intro y hy; simp [exPr, varsOf] at hy; subst hy; exact sy, by simp [FinE, exPr, finiteLits],
-      fun ρ _ => by simp [exPr, NC], fun ρ _ => ⟨ρ "y", by simp [exPr, eval]⟩⟩
+  have hfresh : (toString "$" ++ toString ExtKind.max.name ++ toString "_" ++ toString ({ s0 with queue := [] } : St (Ext K)).maxCount)
+      ∉ ({ s0 with queue := [] } : St (Ext K)).domain.map (·.name) := by
+    simp [s0, exPr, ExtKind.name]; decide
+  have hdrain : drain drainFuel s0 = .error .divisionByZero := by
+    have h1 : drainFuel = 999999 + 1 := rfl
+    rw [h1, drain_succ, bind_err]
+    right
+    refine ⟨s0, s0, rfl, ?_⟩
+    show (do set { s0 with queue := [] }; processConstraint exPrC; drain 999999 : M (Ext K) Unit) s0 = _
+    rw [bind_err]
+    right
+    refine ⟨⟨⟩, _, rfl, ?_⟩
+    rw [bind_err]
+    left
+    exact exPr_proc _ hy hfresh
+  exact linearizeWith_error_of_drain (o := .var "y") (c := Ctx.fromVar "y" Arith.one) (s1 := s0)
+    ((simplifyFlat_ok _ _ _).mpr ⟨_, by simpa [exPr] using exAbs_norm_var (K := K) "y", rfl⟩)
+    (by rw [linExp]; rfl) hdrain
 
 end Rooc.LinP
